@@ -2,7 +2,8 @@
 //! or rendered by an independent renderer with the format's few layout choices (header length,
 //! explicit latch reset, padded varints), mutations, arbitrary bytes, UTF-8 edge cases, extreme
 //! numerals / huge declared counts (C05, C06), single-token corruptions with known position (C08),
-//! faults (C04), line sources (C09).
+//! faults (C04), line sources (C09); `scale`: documents in which every size-like dimension goes
+//! beyond 2^20 (see the section at the end of this file).
 use crate::common::*;
 use crate::eng_aiger::{write_real, Case, Circ};
 
@@ -764,7 +765,7 @@ fn build_scale(plan: &Plan, rng: &mut Rng, all_sizes: &[usize]) -> Built {
     let js = size[&Dim::JusticeSize];
     let nj = if js > 0 && size[&Dim::JusticeCount] == 0 { 1 } else { size[&Dim::JusticeCount] };
     // the other justice properties: 0, 1 or 2 literals each (fewer when there are many)
-    let jc: u64 = if nj > 4096 { rng.below(2) } else { rng.below(3) };
+    let jc: u64 = if nj > (1 << 20) + 64 { 0 } else if nj > 4096 { rng.below(2) } else { rng.below(3) };
     let (mut nl, no, nb, nc, nf, mut na) = (size[&Dim::Latches], size[&Dim::Outputs], size[&Dim::Bad], size[&Dim::Constraints], size[&Dim::Fairness], size[&Dim::Gates]);
     let mut ni = if bin { 0 } else { size[&Dim::Inputs] };
     // small literal types: the sections that define variables must fit (the type limit is the scale)
@@ -962,7 +963,7 @@ pub fn gen_scale(rng: &mut Rng, opt: &str, thorough: bool) -> String {
     // at the pool: as soon as it covers the next size beyond 2^17 that the pair at the front has not
     // had yet (2^20 + 1 first; capped per case at `cap`), the case becomes a "big slot" for it.
     let avg: usize = if thorough { 1_000_000 } else { 400_000 };
-    let cap: usize = if thorough { 32_000_000 } else { 5_000_000 };
+    let cap: usize = if thorough { 20_000_000 } else { 5_000_000 };
     let room = (avg * (index + 10)).saturating_sub(st.spent);
     let (bbin, bdim) = ITEM_DIMS[st.big_slots % ITEM_DIMS.len()];
     // rough cost per item of a section (bytes per line + 1)
@@ -1046,6 +1047,9 @@ pub fn gen_scale(rng: &mut Rng, opt: &str, thorough: bool) -> String {
             plan.size.insert(d, small(rng));
         } else if plan.wide {
             plan.wide = false;
+        } else if big_slot {
+            // the size was chosen for this slot: keep it (the pool pays for the misestimate)
+            break;
         } else {
             let cur = plan.size[&pdim] as usize;
             let lower = st.big.iter().chain(st.cheap.iter()).copied().filter(|x| *x < cur && !st.seen.contains(&(bin, pdim, *x))).max();
